@@ -158,9 +158,16 @@ class MDOChain(ProcessDiscipline):
                 common_inputs = sorted(
                     set(self.jac[output_name].keys()).intersection(discipline.jac)
                 )
-                for input_name in common_inputs:
-                    # Store reference to the current Jacobian
-                    curr_jac = self.jac[output_name][input_name]
+                # The derivatives wrt the outputs of the discipline are replaced by
+                # their composition with the Jacobian of the discipline:
+                # they are removed first such that none is composed twice
+                # nor after having been updated.
+                output_jac = self.jac[output_name]
+                curr_jacs = {
+                    input_name: output_jac.pop(input_name)
+                    for input_name in common_inputs
+                }
+                for input_name, curr_jac in curr_jacs.items():
                     for new_in, new_jac in discipline.jac[input_name].items():
                         # Chain rule the derivatives
                         # TODO: sum BEFORE dot
@@ -174,7 +181,7 @@ class MDOChain(ProcessDiscipline):
                         # when input_name==new_in, we are in the case of an
                         # input being also an output
                         # in this case we must only compose the derivatives
-                        if new_in in self.jac[output_name] and input_name != new_in:
+                        if new_in in output_jac:
                             # The output is already linearized wrt this
                             # input_name. We are in the case:
                             # d o     d o    d o     di_2
